@@ -389,6 +389,9 @@ func init() {
 	e = PropEngines["C02"]
 	e.Variants = []string{"sched", "sched", "iofault"}
 	PropEngines["C02"] = e
+	e = PropEngines["C15"]
+	e.Variants = []string{"sched", "sched", "sched", "iofault"}
+	PropEngines["C15"] = e
 	PropEngines["C05"] = struct {
 		Engine   string
 		Variants []string
